@@ -151,7 +151,12 @@ fn attr_name(input: Span<'_>) -> IResult<Span<'_>, Cow<'_, str>> {
 }
 
 fn attr_name_final(input: Span<'_>) -> IResult<Span<'_>, Cow<'_, str>> {
-    map(complete::identifier, Cow::Borrowed)(input)
+    // A quoted attribute name is as valid at the end of the input as anywhere else. (An
+    // unterminated literal is an error here, rather than incomplete.)
+    alt((
+        nom::combinator::complete(string_literal),
+        map(complete::identifier, Cow::Borrowed),
+    ))(input)
 }
 
 impl<'a> ParseEvents<'a> {
